@@ -236,8 +236,12 @@ class GenomeOps(Harness):
             return res
         r = dict(sorted=gi.sorted, clip=gi.clip, extend=lambda: gi.extended_to_size(x["L"]),
                  merged0=lambda: gi.merged(), merged1=lambda: gi.merged(1))[op]()
-        return dict(chrom=ctx.lst(r.chromosome.raw()), start=ctx.lst(r.start), stop=ctx.lst(r.stop), labels=labels,
-                    n=len(r))
+        res = dict(chrom=ctx.lst(r.chromosome.raw()), start=ctx.lst(r.start), stop=ctx.lst(r.stop), labels=labels, n=len(r))
+        if op == "extend":
+            # the extended intervals are still stranded intervals: the strand column survives and strand-aware methods keep using it
+            res["stranded"] = bool(r.is_stranded())
+            res["strand"] = ctx.lst(r.strand.raw()) if res["stranded"] else None
+        return res
 
     # ---- helpers over the symbolic inputs
     def _entries(self, skel, x):
@@ -315,6 +319,9 @@ class GenomeOps(Harness):
                 exp.append((z3.If(e["s"] - f > 0, e["s"] - f, 0), z3.If(e["s"] + f + 1 < size, e["s"] + f + 1, size)))
             else:
                 exp.append((e["s"], e["e"]))
+        if op == "extend":
+            if not out.get("stranded") or len(out["strand"]) != m:
+                return False
         rows_out = [(TI(out["chrom"][j]), TI(out["start"][j]), TI(out["stop"][j])) for j in range(m)]
         if op == "sorted":
             perms = []
@@ -332,7 +339,8 @@ class GenomeOps(Harness):
                 for i, e in enumerate(ent):
                     rank = sum([z3.If(inc_term(e2["c"]), 1, 0) for e2 in ent[:i]], z3.IntVal(0))
                     opts.append(z3.And(inc_term(e["c"]), rank == j, rows_out[j][0] == code(e["c"]),
-                                       rows_out[j][1] == exp[i][0], rows_out[j][2] == exp[i][1]))
+                                       rows_out[j][1] == exp[i][0], rows_out[j][2] == exp[i][1],
+                                       *([TI(out["strand"][j]) == z3.If(e["neg"], 1, 0)] if op == "extend" else [])))
                 conj.append(z_or(opts))
         return z_and(conj)
 
@@ -431,6 +439,11 @@ class GenomeOps(Harness):
         got = list(zip(cout["chrom"], cout["start"], cout["stop"]))
         if got != exp:
             return f"{op} of {desc} on {sizes_d}: {got}, expected {exp} (chromosome codes per {labels})"
+        if op == "extend":
+            want = [1 if e["neg"] else 0 for e in inc]
+            if not cout.get("stranded") or [int(v) for v in cout["strand"]] != want:
+                return (f"extended_to_size of stranded intervals {desc}: the result is {'stranded with strand codes ' + str(cout['strand']) if cout.get('stranded') else 'NOT stranded any more'}"
+                        f", expected stranded with strand codes {want} (0 = '+', 1 = '-')")
         return None
 
 
